@@ -65,14 +65,17 @@ def gen_spec(rng, n_ann):
     views = [("_InitialView", rng.choice(TEXTS))]
     for k in range(rng.randint(0, 2)):
         views.append(("view%d" % (k + 2), rng.choice(TEXTS)))
+    if rng.random() < 0.25:
+        views.append(("notext", None))      # a view whose sofa has no text: covered text is None there
     nodes = {}
     used = set()
     for i in range(n_ann):
         t = rng.choice(ANN_TYPES)
         vn, text = rng.choice(views)
+        tl = len(text) if text is not None else 6
         for _try in range(50):
-            b = rng.randint(0, len(text))
-            e = rng.randint(b, len(text))
+            b = rng.randint(0, tl)
+            e = rng.randint(b, tl)
             if (t, b, e) not in used:
                 break
         else:
@@ -160,7 +163,8 @@ def build_ops(spec, rng, explicit_ids, shuffle):
     vh["_InitialView"] = h0
     for vn, text in spec["views"][1:]:
         h = sb.create_view(h0, vn)
-        sb.op(op="cas.sofa_set", h=h, field="string", v=[ord(c) for c in text])
+        if text is not None:
+            sb.op(op="cas.sofa_set", h=h, field="string", v=[ord(c) for c in text])
         vh[vn] = h
     keys = list(spec["nodes"])
     if shuffle:
@@ -237,7 +241,7 @@ def mutate(spec, rng, kind):
             return sp
         if kind == "offset" and "b" in n:
             used = {(m["type"], m["b"], m["e"]) for m in nodes.values() if "b" in m}
-            L = len(texts[n["view"]])
+            L = len(texts[n["view"]]) if texts[n["view"]] is not None else 6
             for cand in [(n["b"], n["e"] + 1), (n["b"] + 1, max(n["e"], n["b"] + 1)), (max(n["b"] - 1, 0), n["e"])]:
                 if cand[1] <= L and cand != (n["b"], n["e"]) and (n["type"], cand[0], cand[1]) not in used:
                     n["b"], n["e"] = cand
@@ -273,7 +277,7 @@ def mutate(spec, rng, kind):
             n["arrs"][f] = (ak, els)
             return sp
         if kind == "view" and "b" in n and len(sp["views"]) > 1:
-            others = [v for v, t in sp["views"] if v != n["view"] and len(t) >= n["e"]]
+            others = [v for v, t in sp["views"] if v != n["view"] and (len(t) if t is not None else 6) >= n["e"]]
             if others:
                 n["view"] = rng.choice(others)
                 return sp
